@@ -539,7 +539,6 @@ func c03CacheSound(p *Program, r *Report) {
 	}
 }
 
-
 // c03RegistryOwner: the registry maps a path to the context whose mailbox receives the mail for that path; lookups that miss
 // fall back to the root mailbox, where the guard swallows the message. The removal routine deletes by path, so a call from
 // anywhere but the dying actor's own cleanup step (e.g. "roll back" after a rejected duplicate spawn) erases the entry of a
